@@ -17,6 +17,8 @@
 
 using namespace vh;
 
+#include "consteval_scripts.inc"
+
 template <typename Char>
 struct Src {
     Char* p;
@@ -53,10 +55,13 @@ struct Run {
 
     // one history step on both strings; returns false when the reference has no defined result
     // retImpl / retRef: the iterator returned by erase(first, last) / erase(position) as an offset (-1: none)
-    static bool step(Toks& in, E& e, bool& contract, S& r, bool& refOk, i64& retImpl, i64& retRef)
+    static bool step(Toks& in, E& e, bool& contract, S& r, bool& refOk, i64& retImpl, i64& retRef, Out& otherImpl,
+                     Out& otherRef)
     {
         retImpl = -1;
         retRef  = -1;
+        otherImpl.s.clear();
+        otherRef.s.clear();
         auto op = in.str();
         Out scratch;
         auto impl = [&](auto f) {
@@ -143,15 +148,30 @@ struct Run {
             auto n = static_cast<std::size_t>(in.unum());
             impl([&] { e = e.substr(p, n); });
             ref(p <= r.size(), [&] { r = r.substr(p, n); });
-        } else if (op == "sw") {
+        } else if (op == "sw" || op == "swf") {
+            // member swap / free swap (ADL); the state of the OTHER object is printed as well ("O ...")
             Src<Char> src(in.list());
             impl([&] {
                 E other(static_cast<Char const*>(src.p), src.n);
-                e.swap(other);
+                if (op == "sw") {
+                    e.swap(other);
+                } else {
+                    swap(e, other);
+                }
+                otherImpl.s.clear();
+                otherImpl.tok("O");
+                put_state(otherImpl, other);
             });
-            ref(true, [&] {
+            ref(src.n <= Cap, [&] {
                 S other(src.p, src.n);
-                r.swap(other);
+                if (op == "sw") {
+                    r.swap(other);
+                } else {
+                    swap(r, other);
+                }
+                otherRef.s.clear();
+                otherRef.tok("O");
+                put_state(otherRef, other);
             });
         } else if (op == "rs0") {
             auto n = static_cast<std::size_t>(in.unum());
@@ -354,7 +374,9 @@ struct Run {
             bool const was = contract;
             i64 retImpl = -1;
             i64 retRef  = -1;
-            if (!step(in, e, contract, r, refOk, retImpl, retRef)) { return false; }
+            Out otherImpl;
+            Out otherRef;
+            if (!step(in, e, contract, r, refOk, retImpl, retRef, otherImpl, otherRef)) { return false; }
             if (!was) {
                 if (contract) {
                     impl.tok("contract");
@@ -363,11 +385,13 @@ struct Run {
                 } else {
                     put_state(impl, e);
                     if (retImpl >= 0) { impl.tok("R").num(retImpl); }
+                    if (!otherImpl.empty()) { impl.tok(otherImpl.s); }
                 }
             }
             if (refOk) {
                 put_state(ref, r);
                 if (retRef >= 0) { ref.tok("R").num(retRef); }
+                if (!otherRef.empty()) { ref.tok(otherRef.s); }
             }
         }
         if (!refOk || raw) {
@@ -632,6 +656,22 @@ struct Run {
                 ref.tok("ok").b(r == rb).b(r != rb).b(r < rb).b(r <= rb).b(r > rb).b(r >= rb);
                 return true;
             }
+            if (name == "sx") {
+                // the right-hand side is a string of ANOTHER capacity (31)
+                using E2 = etl::basic_inplace_string<Char, 31>;
+                Src<Char> b(in.list());
+                if (b.n > 31) {
+                    impl.tok("contract");
+                    return true;
+                }
+                E2 eb(static_cast<Char const*>(b.p), b.n);
+                S rb(b.p, b.n);
+                guarded(impl, [&](Out& o) {
+                    o.tok("ok").b(e == eb).b(e != eb).b(e < eb).b(e <= eb).b(e > eb).b(e >= eb).num(sign(e.compare(eb)));
+                });
+                ref.tok("ok").b(r == rb).b(r != rb).b(r < rb).b(r <= rb).b(r > rb).b(r >= rb).num(sign(r.compare(rb)));
+                return true;
+            }
             Src<Char> a(cstr());
             Char const* p = a.p;
             if (name == "sz") {
@@ -748,6 +788,78 @@ struct Run {
         return true;
     }
 
+    // iterator-based overloads: replacei (first, last, str), replaceip (first, last, s, count2),
+    // replaceiz (first, last, s), replacef (first, last, count2, ch); [first, last) must be a range of the string
+    static bool replace_iter(std::string const& op, Toks& in, Out& impl, Out& ref)
+    {
+        Src<Char> content(in.list());
+        auto first = static_cast<std::size_t>(in.unum());
+        auto last  = static_cast<std::size_t>(in.unum());
+        if (content.n > Cap) {
+            impl.tok("contract");
+            return true;
+        }
+        if (!(first <= last && last <= content.n)) { return false; }   // undefined behaviour: never executed
+        E e(static_cast<Char const*>(content.p), content.n);
+        S r(content.p, content.n);
+        auto rf = [&] { return r.cbegin() + static_cast<std::ptrdiff_t>(first); };
+        auto rl = [&] { return r.cbegin() + static_cast<std::ptrdiff_t>(last); };
+        if (op == "replacef") {
+            auto cnt2 = static_cast<std::size_t>(in.unum());
+            auto ch   = static_cast<Char>(in.num());
+            guarded(impl, [&](Out& o) {
+                e.replace(e.cbegin() + first, e.cbegin() + last, cnt2, ch);
+                o.tok("ok");
+                put_state(o, e);
+            });
+            if (cnt2 <= 100000) {
+                r.replace(rf(), rl(), cnt2, ch);
+                if (r.size() <= Cap) {
+                    ref.tok("ok");
+                    put_state(ref, r);
+                }
+            }
+            return true;
+        }
+        auto v = in.list();
+        if (op == "replaceiz") { v.push_back(0); }
+        Src<Char> src(v);
+        std::size_t cnt2 = 0;
+        if (op == "replaceip") {
+            cnt2 = static_cast<std::size_t>(in.unum());
+            if (cnt2 > src.n) { return false; }
+        }
+        if (op == "replacei" && src.n > Cap) {
+            impl.tok("contract");
+            return true;
+        }
+        Char const* p = src.p;
+        guarded(impl, [&](Out& o) {
+            if (op == "replacei") {
+                E es(p, src.n);
+                e.replace(e.cbegin() + first, e.cbegin() + last, es);
+            } else if (op == "replaceip") {
+                e.replace(e.cbegin() + first, e.cbegin() + last, p, cnt2);
+            } else {
+                e.replace(e.cbegin() + first, e.cbegin() + last, p);
+            }
+            o.tok("ok");
+            put_state(o, e);
+        });
+        if (op == "replacei") {
+            r.replace(rf(), rl(), S(src.p, src.n));
+        } else if (op == "replaceip") {
+            r.replace(rf(), rl(), p, cnt2);
+        } else {
+            r.replace(rf(), rl(), p);
+        }
+        if (r.size() <= Cap) {
+            ref.tok("ok");
+            put_state(ref, r);
+        }
+        return true;
+    }
+
     static bool run(std::string const& op, Toks& in, Out& impl, Out& ref)
     {
         if (op == "hist") { return hist(in, impl, ref); }
@@ -755,6 +867,7 @@ struct Run {
         if constexpr (Q) {
             if (op == "replace") { return replace(in, impl, ref); }
             if (op == "replace5" || op == "replacep" || op == "replacez") { return replace_more(op, in, impl, ref); }
+            if (op == "replacei" || op == "replaceip" || op == "replaceiz" || op == "replacef") { return replace_iter(op, in, impl, ref); }
             auto k = op.substr(0, op.find('_'));
             if (k == "q" || k == "qd" || k == "cmp" || k == "copy") { return query(op, in, impl, ref); }
             return query2(op, in, impl, ref);
